@@ -658,6 +658,7 @@ package lang
 //@   after Evaluator.evalExpr: $R = ($n == 2 ? ret0 : $R)
 //@   after Evaluator.evalExpr: $okR = ($n == 2 ? ret1 == nil : $okR)
 //@   after Lexer.GetString: $isName = ret0
+//@   ensures[C09,C11] a-member-of-something-unset-is-named-by-a-number-or-a-string: (expr.OpToken.Tag == LSquare || expr.OpToken.Tag == Dot) && $n == 2 && $okR && $R.Value.Tag != ValueNum && $R.Value.Tag != ValueStr && $L.Value.Tag == ValueUnknown ==> err != nil
 //@   ensures[C05] plus-concatenates-with-a-string: expr.OpToken.Tag == Plus && $n == 2 && $okR && ($L.Value.Tag == ValueStr || $R.Value.Tag == ValueStr) ==> err == nil && result0.Value.Tag == ValueStr && *result0.Value.Str == specStr($L.Value) + specStr($R.Value)
 //@   ensures[C05] plus-adds-otherwise: expr.OpToken.Tag == Plus && $n == 2 && $okR && $L.Value.Tag != ValueStr && $R.Value.Tag != ValueStr ==> err == nil && result0.Value.Tag == ValueNum && same(*result0.Value.Num, specNum($L.Value) + specNum($R.Value))
 //@   ensures[C05] minus: expr.OpToken.Tag == Minus && $n == 2 && $okR ==> err == nil && result0.Value.Tag == ValueNum && same(*result0.Value.Num, specNum($L.Value) - specNum($R.Value))
